@@ -69,7 +69,7 @@ func runR35(c *Ctx) {
 			cellOK := false
 			if ci {
 				if call, ok := a0.(*ssa.Call); ok {
-					if callee := call.Call.StaticCallee(); callee != nil && callee.Name() == "ToUpper" && callee.Pkg != nil && callee.Pkg.Pkg.Path() == rel(sp) {
+					if callee := call.Call.StaticCallee(); callee != nil && callee == p.anchorUpper() {
 						if len(call.Call.Args) == 2 && call.Call.Args[1] == ssa.Value(fn.Params[1]) {
 							cellOK = true
 						}
@@ -92,7 +92,7 @@ func runR35(c *Ctx) {
 		}
 	}
 	// (b) NewMatcher on 16 valuations
-	fn := p.Func(sp, "NewMatcher")
+	fn := p.anchorMatcherCtor()
 	if fn == nil || len(fn.Params) != 2 {
 		c.undecided(sp+".NewMatcher", "-", "not found")
 		return
@@ -218,7 +218,10 @@ func runR35(c *Ctx) {
 	// (c) like / ilike pass the right case flag in both column packages; null never reaches Matches
 	for _, cp := range []string{"internal/scolumn", "internal/ecolumn"} {
 		for name, wantCS := range map[string]bool{"like": true, "ilike": false} {
-			fn := p.Func(cp, name)
+			fn := p.tableKernel(cp, name)
+			if fn == nil {
+				fn = p.Func(cp, name)
+			}
 			key := cp + "." + name + "|case flag"
 			if fn == nil {
 				c.bad(key, "-", "kernel not found")
@@ -246,7 +249,7 @@ func runR35(c *Ctx) {
 			}
 		}
 	}
-	if fn := p.Func("internal/scolumn", "regexFilter"); fn != nil {
+	if fn := p.anchorMatchLoop(); fn != nil {
 		eachInstr(fn, func(in ssa.Instruction) {
 			call, ok := in.(*ssa.Call)
 			if !ok || !call.Call.IsInvoke() || call.Call.Method.Name() != "Matches" {
@@ -497,7 +500,7 @@ func runR26(c *Ctx) {
 		})
 	}
 	// reader: empty cell -> NaN in the float stage; -> null under EmptyNull in the string stage
-	if fn := p.Func("internal/io", "columnToData"); fn != nil {
+	if fn := p.anchorColumnToData(); fn != nil {
 		nan, emptyNull := false, false
 		eachInstr(fn, func(in ssa.Instruction) {
 			call, ok := in.(*ssa.Call)
